@@ -129,6 +129,12 @@ VIS void sched_generic_events(int on) { generic_park = on; }
  * is parked again there -- so it is still stopped inside its call when the fork really happens */
 static volatile int waiter_blocked;
 static __thread int just_unlocked;
+/* two forking threads: a thread that finds a lock of the library busy (held by the parked thread) normally makes the parked thread run on
+   at once; with hold_n set it first waits until hold_n threads are waiting like that (or the hold is lifted) -- so that a second thread can
+   call fork() while the first one is still inside its fork handlers */
+static volatile int hold_n, waiters_now;
+VIS void sched_hold_waiters(int n) { hold_n = n; if (!n) waiters_now = 0; }
+VIS int sched_waiters(void) { return waiters_now; }
 static void release_until_unlocked(void)
 {
     if (park_state == 1) { waiter_blocked = 1; park_state = 3; park_word = 1; fwake(&park_word); }
@@ -432,6 +438,7 @@ VIS int pthread_mutex_lock(pthread_mutex_t *m)
             int r = real_trylock(m);
             if (r != EBUSY) { return r; }
             /* another thread (e.g. a fork handler) needs the lock the parked thread holds: let it go on until it gives the lock up */
+            if (hold_n) { __sync_fetch_and_add(&waiters_now, 1); for (int w = 0; w < 3000 && hold_n && waiters_now < hold_n; w++) usleep(500); }
             release_until_unlocked();
             r = real_lock(m);
             waiter_blocked = 0;
